@@ -271,6 +271,42 @@ theorem minVV_never_overstates (req : VV) (rows : List VV)
     · exact hreq
     · exact hrows v hv)
 
+/-- clause 4 in the form garbage collection uses it (`EqualToOrAfter(removedAt)`): whatever the handed-out minimum
+    vector COVERS – so whatever any peer is allowed to purge on its account – every participating vector (the
+    requester's and every stored row) covers too: no client is asked to forget a tombstone that some attached
+    participating client has not yet acknowledged. (`0 < t.lamport`: real tickets; the initial ticket has lamport 0
+    and is never a removal time.) -/
+theorem minVV_covered_is_acknowledged_by_all (req : VV) (rows : List VV)
+    (hreq : req.NonNeg) (hrows : ∀ v ∈ rows, v.NonNeg) (t : Ticket) (ht : 0 < t.lamport)
+    (hcov : (minVV (req :: rows)).equalToOrAfter t = true) :
+    ∀ v ∈ req :: rows, v.equalToOrAfter t = true := by
+  intro v hv
+  unfold VV.equalToOrAfter at hcov ⊢
+  cases hm : (minVV (req :: rows)).get? t.actor with
+  | none => simp [hm] at hcov
+  | some l =>
+    simp only [hm, decide_eq_true_eq] at hcov
+    have hle := minVV_never_overstates req rows hreq hrows v hv t.actor l hm
+    unfold VV.versionOf at hle
+    cases hg : v.get? t.actor with
+    | none => simp only [hg, Option.getD_none] at hle; omega
+    | some y => simp only [hg, Option.getD_some] at hle; simp only [decide_eq_true_eq]; omega
+
+/-- contrapositive, the way a violation would look: one participating vector that has NOT seen `t` keeps the
+    minimum from covering it -/
+theorem unacknowledged_not_covered (req : VV) (rows : List VV)
+    (hreq : req.NonNeg) (hrows : ∀ v ∈ rows, v.NonNeg) (t : Ticket) (ht : 0 < t.lamport)
+    (v : VV) (hv : v ∈ req :: rows) (hno : v.equalToOrAfter t = false) :
+    (minVV (req :: rows)).equalToOrAfter t = false := by
+  cases h : (minVV (req :: rows)).equalToOrAfter t with
+  | false => rfl
+  | true =>
+    have := minVV_covered_is_acknowledged_by_all req rows hreq hrows t ht h v hv
+    rw [this] at hno; cases hno
+
+example : (minVV [[(1, 5), (2, 3)], [(1, 4), (2, 7)]]).equalToOrAfter ⟨4, 0, 1⟩ = true ∧
+    (minVV [[(1, 5), (2, 3)], [(1, 4), (2, 7)]]).equalToOrAfter ⟨5, 0, 1⟩ = false := by decide
+
 /-- …and what a client has acknowledged only grows, so a stored row (its vector at request time)
     never exceeds the client's current vector. -/
 theorem row_le_current (atRequest : ChangeID) (later : List Ev) (h : Inv atRequest)
